@@ -108,7 +108,7 @@ pub fn property() -> Property {
             Box::new(Sub {
                 name: "fresh-vs-reused",
                 rule: "one generated H (C01 generator, 1..=8 x 2..=14) and a history of 1..=20 calls (LLR classes of C01: converging noisy codewords, garbage, exact codewords, specials, zero blocks, extremes; limits {0,1,2,3,5,10,30,200}; 12% exact repeats of the previous call); every call on the long-lived decoder of each of the 36 names must equal (Result, word, iterations) the call on a decoder freshly built for it; non-trivial = history of >= 2 calls containing an iterating call and a failure or a limit change; inner evaluations = compared calls",
-                cases: |t| t.pick(5_000, 200_000),
+                cases: |t| t.pick(15_000, 400_000),
                 strategy: |_| strategy(8, 14, 20),
                 check,
                 health: &[("limit0-after-iterating", 0.25), ("failure-before-success", 0.25)],
@@ -116,7 +116,7 @@ pub fn property() -> Property {
             Box::new(Sub {
                 name: "fresh-vs-reused-large",
                 rule: "same oracle, H up to 24 x 60, histories up to 8 calls",
-                cases: |t| t.pick(200, 10_000),
+                cases: |t| t.pick(600, 20_000),
                 strategy: |_| strategy(24, 60, 8),
                 check,
                 health: &[],
